@@ -98,6 +98,8 @@ func upstreamErrClass(err error) string {
 	switch {
 	case strings.Contains(s, "vector cannot contain metrics with the same labelset"):
 		return "dup-labelset"
+	case strings.Contains(s, "grouping labels must ensure unique matches"):
+		return "grouping-dup"
 	case strings.Contains(s, "multiple matches for labels: many-to-one matching must be explicit"):
 		return "many-to-one"
 	case strings.Contains(s, "found duplicate series for the match group"):
